@@ -246,7 +246,7 @@ def pureLoad (db : DB) : List Ckpt → Option (List CkptObj)
   | [] => some []
   | c :: cs =>
     match aGet db.hdr c.hash with
-    | none => pureLoad db cs
+    | none => none
     | some h => match pureLoad db cs with
       | none => none
       | some l => some (⟨c, h.sl⟩ :: l)
@@ -263,11 +263,7 @@ theorem loadCkpts_spec : ∀ (cs : List Ckpt) {s : Store} (_ : CacheOK s),
       simp only at h1 ok1 d1
       rw [← h1]
       cases r with
-      | none =>
-        simp only
-        obtain ⟨h2, ok2, d2⟩ := loadCkpts_spec cs ok1
-        rw [d1] at h2
-        exact ⟨h2, ok2, by rw [d2, d1]⟩
+      | none => exact ⟨rfl, ok1, d1⟩
       | some h =>
         simp only
         obtain ⟨h2, ok2, d2⟩ := loadCkpts_spec cs ok1
